@@ -23,6 +23,12 @@
     (`Readable`, decidable; floats are the only texts it is not proved for in general),
     `get_quantizer(str(q))` runs the constructor body on such arguments; closed universal forms
     for `quantized_tanh` / `quantized_sigmoid`.
+  * second fix round: the scale is tested with `is not None` in every class
+    (`C10_str_alpha_tested_not_none`; closed form `C10_str_roundtrip_bits_alpha`: every integer
+    scale, 0 included) and list-valued axes print item by item in every class
+    (`C10_str_axes_printed_as_lists`; closed form `C10_str_roundtrip_bits_list_axes`: every list
+    of integers); the former counterexamples are `C10_str_falsy_alpha_fixed_witness` and
+    `C10_str_tracked_list_fixed_witness`.
     Kept as `C10_str_counterexample_qnoise_factor`: `qnoise_factor` is never printed.
   Model: QKV.Model.Parse / QKV.Model.Print.  This file holds ONLY property theorems.
 -/
@@ -734,47 +740,202 @@ theorem C10_str_cross_default_witness :
        slot r "threshold" = some (.float 0) ∧ slot r "number_of_unrolls" = some (.int 0)) := by
   decide +kernel
 
-/-! ### found in the strengthening round: a falsy scale is dropped (recorded finding) -/
+/-! ### second fix round: a scale of 0 is printed; list-valued axes print as lists
+    (the former `C10_str_counterexample_falsy_alpha` and `C10_str_counterexample_tracked_list`) -/
 
-/-- `quantized_bits.__str__` / `quantized_hswish.__str__` test the scale with `if self.alpha:`
-    where the four sibling classes test `is not None`: `alpha=0` / `0.0` (accepted by the
-    constructor; the quantizer is the zero function) is not printed and the rebuilt quantizer has
-    `alpha=None`.  `quantized_linear` with the same option round-trips.  This is the instance
-    `Kinded` excludes from `C10_str_roundtrip_complete`. -/
-theorem C10_str_counterexample_falsy_alpha :
+/-- `quantized_bits.__str__` / `quantized_hswish.__str__` tested the scale with `if self.alpha:`
+    where the sibling classes test `is not None`: `alpha=0` / `0.0` (accepted by the constructor;
+    the quantizer is the zero function) was not printed and the rebuilt quantizer had
+    `alpha=None`.  After the fix the old failing inputs print the scale and read it back, and
+    satisfy every hypothesis of the complete round trip (`Kinded` no longer excludes them).
+    `quantized_linear` is unchanged. -/
+theorem C10_str_falsy_alpha_fixed_witness :
     (let r := strTrip .quantized_bits [("alpha", .float 0)]
-     text r = some "quantized_bits(8,0,0)" ∧ slot r "alpha" = some .none) ∧
+     text r = some "quantized_bits(8,0,0,alpha=0.0)" ∧ slot r "alpha" = some (.float 0)) ∧
     (let r := strTrip .quantized_hswish [("alpha", .int 0)]
-     text r = some "quantized_hswish(8,0,0,relu_shift=3,relu_upper_bound=6)" ∧
-       slot r "alpha" = some .none) ∧
+     text r = some "quantized_hswish(8,0,0,relu_shift=3,relu_upper_bound=6,alpha=0)" ∧
+       slot r "alpha" = some (.int 0)) ∧
     (let r := strTrip .quantized_linear [("alpha", .float 0)]
      text r = some "quantized_linear(8,0,1,alpha=0.0)" ∧ slot r "alpha" = some (.float 0)) ∧
-    completeHyps .quantized_bits [] [("alpha", .float 0)] = false ∧
+    completeHyps .quantized_bits [] [("alpha", .float 0)] = true ∧
+    completeHyps .quantized_hswish [] [("alpha", .int 0)] = true ∧
     completeHyps .quantized_linear [] [("alpha", .float 0)] = true := by
   decide +kernel
 
-/-! ### found in the second strengthening round: list-valued axes lose the whole call (recorded) -/
+/-- **one rule for the scale in every class.**  Whatever class prints an option named `alpha`
+    tests it with `is not None` (never by truthiness), so the hypothesis `Kinded` of
+    `C10_str_roundtrip_complete` puts no restriction on the scale: every value — 0, 0.0 and
+    False included — is of a kind the test can judge. -/
+theorem C10_str_alpha_tested_not_none (c : Cls) (s : FlagSpec) (hs : s ∈ posSpec c ++ kwSpec c)
+    (hn : s.name = "alpha") : s.cond = .notNone ∧ ∀ d v, s.cond.kindOK d v = true := by
+  have h : ((posSpec c ++ kwSpec c).all fun s => s.name != "alpha" || s.cond == .notNone) = true := by
+    cases c <;> decide +kernel
+  have h1 := List.all_eq_true.1 h s hs
+  simp only [hn, bne_self_eq_false, Bool.false_or, beq_iff_eq] at h1
+  exact ⟨h1, fun d v => by rw [h1]; rfl⟩
+
+/-- **closed form, `quantized_bits` with a numeric scale**: every bit width and EVERY integer
+    scale — 0, the value the old truthiness test dropped, included — round-trips: every
+    constructor argument of the rebuilt quantizer is `==` the original's.  No hypotheses. -/
+theorem C10_str_roundtrip_bits_alpha (b : Nat) (n : Int) :
+    let q : Q := ⟨.quantized_bits, bitsEnv b (.int 0) (.int n) .none .none⟩
+    ∃ q', reparse q = .ok q' ∧ q'.cls = .quantized_bits ∧
+      ∀ k ∈ paramNames .quantized_bits, (q'.get k).pyEq (q.get k) = true := by
+  intro q
+  have hf := flags_bits_alpha b n
+  have hr : Readable _ _ :=
+    List.Forall₂.cons (flagLit_int none (fun k hk => by cases hk) (b : Int))
+      (List.Forall₂.cons (flagLit_int none (fun k hk => by cases hk) 0)
+        (List.Forall₂.cons (flagLit_int none (fun k hk => by cases hk) 0)
+          (List.Forall₂.cons
+            (flagLit_int (some "alpha") (fun k hk => by cases hk; decide +kernel) n)
+            List.Forall₂.nil)))
+  have hd : Denotes q := by
+    refine ⟨fun s hs => ?_, fun s hs => ?_⟩
+    · have h : s ∈ ([⟨"bits", .always, .str⟩, ⟨"integer", .always, .npRe⟩,
+          ⟨"symmetric", .always, .int⟩] : List FlagSpec) := hs
+      simp only [List.mem_cons, List.not_mem_nil, or_false] at h
+      rcases h with rfl | rfl | rfl
+      · exact denotesOK_id _ _ _ (Or.inl rfl)
+      · rfl
+      · rfl
+    · have h : s ∈ kwSpec .quantized_bits := hs
+      simp only [kwSpec, List.mem_cons, List.not_mem_nil, or_false] at h
+      rcases h with rfl | rfl | rfl | rfl | rfl | rfl | rfl | rfl
+      · rfl
+      · exact denotesOK_id _ _ _ (Or.inr (Or.inl rfl))
+      · rfl
+      · rfl
+      · rfl
+      · rfl
+      · rfl
+      · rfl
+  have hk : Kinded q := by
+    intro s hs
+    have h : s ∈ posSpec .quantized_bits ++ kwSpec .quantized_bits := hs
+    simp only [posSpec, kwSpec, List.cons_append, List.nil_append, List.mem_cons, List.not_mem_nil,
+      or_false] at h
+    rcases h with rfl | rfl | rfl | rfl | rfl | rfl | rfl | rfl | rfl | rfl | rfl <;> rfl
+  obtain ⟨e', hre, _, _, hall⟩ := C10_str_roundtrip_complete q _ _ hf hr hd hk
+  have hall' := hall (fun k hk' => by
+    have h : k ∈ (["qnoise_factor", "var_name", "use_variables", "post_training_scale"] : List String) := hk'
+    simp only [List.mem_cons, List.not_mem_nil, or_false] at h
+    rcases h with rfl | rfl | rfl | rfl <;> rfl)
+  have hpts : e'.get "post_training_scale" = .none :=
+    eq_none_of_pyEq_none _ (hall' "post_training_scale"
+      (show "post_training_scale" ∈ paramNames .quantized_bits by decide +kernel))
+  have hal : (e'.get "alpha").isStr = false := by
+    have h := hall' "alpha" (show "alpha" ∈ paramNames .quantized_bits by decide +kernel)
+    have h' : (e'.get "alpha").pyEq (.int n) = true := h
+    cases hv : e'.get "alpha" <;> simp [hv, PyVal.pyEq, PyVal.numVal, PyVal.isStr] at h' ⊢
+  have hinit : init .quantized_bits e' = .ok ⟨.quantized_bits, e'⟩ := by
+    unfold init check normInit
+    simp only [hpts, hal]
+    rfl
+  exact ⟨⟨.quantized_bits, e'⟩, by rw [hre]; exact hinit, rfl, hall'⟩
 
 /-- `BaseQuantizer` is a `tf.Module`: a Python list assigned to an attribute is wrapped for
-    tracking, and `str(self.scale_axis).replace(" ", "")` of the wrapper is
-    `ListWrapper([0,1])`.  The printed call then has a second "(" and `safe_eval` silently drops
-    EVERY argument (`C10_parse_counterexample_second_paren`): the rebuilt quantizer is the default
-    `quantized_bits(8,0,0)`.  Same for `elements_per_scale`, for `quantized_linear` and
-    `quantized_hswish`.  `binary` prints its lists item by item and round-trips. -/
-theorem C10_str_counterexample_tracked_list :
+    tracking, and `__str__` printed `str()` of the wrapper — `scale_axis=ListWrapper([0,1])`,
+    whose second "(" makes `safe_eval` drop EVERY argument
+    (`C10_parse_counterexample_second_paren`): the rebuilt quantizer was the default
+    `quantized_bits(8,0,0)`.  After the fix the four classes with list-valued axes print them
+    item by item, as `binary` always did; the old failing inputs read back completely. -/
+theorem C10_str_tracked_list_fixed_witness :
     (let r := strTrip .quantized_bits
         [("bits", .int 4), ("alpha", .str "auto"), ("scale_axis", .list [.int 0, .int 1])]
-     text r = some "quantized_bits(4,0,1,alpha='auto',scale_axis=ListWrapper([0,1]))" ∧
-       slot r "bits" = some (.int 8) ∧ slot r "alpha" = some .none ∧
-       slot r "scale_axis" = some .none) ∧
+     text r = some "quantized_bits(4,0,1,alpha='auto',scale_axis=[0,1])" ∧
+       slot r "bits" = some (.int 4) ∧ slot r "alpha" = some (.str "auto") ∧
+       slot r "scale_axis" = some (.list [.int 0, .int 1])) ∧
+    (let r := strTrip .quantized_bits
+        [("alpha", .str "auto"), ("scale_axis", .int 0), ("elements_per_scale", .list [.int 2, .int 2])]
+     text r = some "quantized_bits(8,0,1,alpha='auto',scale_axis=0,elements_per_scale=[2,2])" ∧
+       slot r "elements_per_scale" = some (.list [.int 2, .int 2])) ∧
     (let r := strTrip .quantized_linear
         [("bits", .int 4), ("alpha", .str "auto"), ("scale_axis", .list [.int 0, .int 1])]
-     text r = some "quantized_linear(4,0,1,alpha='auto',scale_axis=ListWrapper([0,1]))" ∧
-       slot r "bits" = some (.int 8)) ∧
+     text r = some "quantized_linear(4,0,1,alpha='auto',scale_axis=[0,1])" ∧
+       slot r "bits" = some (.int 4) ∧ slot r "scale_axis" = some (.list [.int 0, .int 1])) ∧
+    (let r := strTrip .quantized_hswish
+        [("bits", .int 4), ("alpha", .str "auto"), ("scale_axis", .list [.int 0, .int 1])]
+     text r = some "quantized_hswish(4,0,1,relu_shift=3,relu_upper_bound=6,alpha='auto',scale_axis=[0,1])" ∧
+       slot r "bits" = some (.int 4) ∧ slot r "scale_axis" = some (.list [.int 0, .int 1])) ∧
     (let r := strTrip .binary [("alpha", .str "auto"), ("scale_axis", .list [.int 0, .int 1])]
      text r = some "binary(alpha='auto',scale_axis=[0,1])" ∧
-       slot r "scale_axis" = some (.list [.int 0, .int 1])) := by
+       slot r "scale_axis" = some (.list [.int 0, .int 1])) ∧
+    completeHyps .quantized_bits [] [("alpha", .str "auto"), ("scale_axis", .list [.int 0, .int 1])] = true ∧
+    completeHyps .quantized_linear [] [("alpha", .str "auto"), ("scale_axis", .list [.int 0, .int 1])] = true ∧
+    completeHyps .quantized_hswish [] [("alpha", .str "auto"), ("scale_axis", .list [.int 0, .int 1])] = true := by
   decide +kernel
+
+/-- **one rule for the axes in every class.**  Whatever class prints `scale_axis` or
+    `elements_per_scale` prints it when it is not None, item by item when it is a list. -/
+theorem C10_str_axes_printed_as_lists (c : Cls) (s : FlagSpec) (hs : s ∈ posSpec c ++ kwSpec c)
+    (hn : s.name = "scale_axis" ∨ s.name = "elements_per_scale") :
+    s.cond = .notNone ∧ s.conv = .intOrList := by
+  have h : ((posSpec c ++ kwSpec c).all fun s =>
+      !(s.name == "scale_axis" || s.name == "elements_per_scale") ||
+        (s.cond == .notNone && s.conv == .intOrList)) = true := by
+    cases c <;> decide +kernel
+  have h1 := List.all_eq_true.1 h s hs
+  have h2 : (s.name == "scale_axis" || s.name == "elements_per_scale") = true := by
+    rcases hn with hn | hn <;> simp [hn]
+  simp only [h2, Bool.not_true, Bool.false_or, Bool.and_eq_true, beq_iff_eq] at h1
+  exact h1
+
+/-- **closed form, list-valued axes of `quantized_bits`**: every bit width, EVERY list of
+    integers as `scale_axis` and EVERY list of integers as `elements_per_scale` (any lengths,
+    the empty list included) under `alpha='auto'`: the text is a call of the grammar, and
+    `get_quantizer(str(q))` runs the constructor body on arguments that are all `==` the
+    original's.  No hypotheses.  (With the tracked-list text this statement is false for every
+    list: the rebuilt quantizer was the default.) -/
+theorem C10_str_roundtrip_bits_list_axes (b : Nat) (l m : List Int) :
+    let q : Q := ⟨.quantized_bits,
+      bitsEnv b (.bool true) (.str "auto") (.list (l.map Num.int)) (.list (m.map Num.int))⟩
+    ∃ e', reparse q = init .quantized_bits e' ∧
+      ∀ k ∈ paramNames .quantized_bits, (e'.get k).pyEq (q.get k) = true := by
+  intro q
+  have hf := flags_bits_axes b l m
+  have hr : Readable _ _ :=
+    List.Forall₂.cons (flagLit_int none (fun k hk => by cases hk) (b : Int))
+      (List.Forall₂.cons (flagLit_int none (fun k hk => by cases hk) 0)
+        (List.Forall₂.cons (flagLit_int none (fun k hk => by cases hk) 1)
+          (List.Forall₂.cons (show FlagLit ⟨some "alpha", .str "auto", "'auto'"⟩ (.kw "alpha" (.str false "auto".toList)) by
+            decide +kernel)
+            (List.Forall₂.cons
+              (flagLit_intList (some "scale_axis") (fun k hk => by cases hk; decide +kernel) l)
+              (List.Forall₂.cons
+                (flagLit_intList (some "elements_per_scale") (fun k hk => by cases hk; decide +kernel) m)
+                List.Forall₂.nil)))))
+  have hd : Denotes q := by
+    refine ⟨fun s hs => ?_, fun s hs => ?_⟩
+    · have h : s ∈ ([⟨"bits", .always, .str⟩, ⟨"integer", .always, .npRe⟩,
+          ⟨"symmetric", .always, .int⟩] : List FlagSpec) := hs
+      simp only [List.mem_cons, List.not_mem_nil, or_false] at h
+      rcases h with rfl | rfl | rfl
+      · exact denotesOK_id _ _ _ (Or.inl rfl)
+      · rfl
+      · rfl
+    · have h : s ∈ kwSpec .quantized_bits := hs
+      simp only [kwSpec, List.mem_cons, List.not_mem_nil, or_false] at h
+      rcases h with rfl | rfl | rfl | rfl | rfl | rfl | rfl | rfl
+      · rfl
+      · rfl
+      · rfl
+      · exact denotesOK_id _ _ _ (Or.inr (Or.inr (Or.inr rfl)))
+      · rfl
+      · exact denotesOK_id _ _ _ (Or.inr (Or.inr (Or.inr rfl)))
+      · rfl
+      · rfl
+  have hk : Kinded q := by
+    intro s hs
+    have h : s ∈ posSpec .quantized_bits ++ kwSpec .quantized_bits := hs
+    simp only [posSpec, kwSpec, List.cons_append, List.nil_append, List.mem_cons, List.not_mem_nil,
+      or_false] at h
+    rcases h with rfl | rfl | rfl | rfl | rfl | rfl | rfl | rfl | rfl | rfl | rfl <;> rfl
+  obtain ⟨e', hre, _, _, hall⟩ := C10_str_roundtrip_complete q _ _ hf hr hd hk
+  exact ⟨e', hre, hall (fun k hk' => by
+    have h : k ∈ (["qnoise_factor", "var_name", "use_variables", "post_training_scale"] : List String) := hk'
+    simp only [List.mem_cons, List.not_mem_nil, or_false] at h
+    rcases h with rfl | rfl | rfl | rfl <;> rfl)⟩
 
 /-- array-valued (per-channel) options print as `str(numpy.ndarray)` — blanks, no commas — and
     read back as the list of the same numbers: the scale of `quantized_linear`, the integer bits
@@ -855,8 +1016,10 @@ example :
     completeHyps .quantized_relu [] [("integer", .list [.int 1, .int 2, .int 0])] = true ∧
     -- a one-channel array loses its brackets ("[3]" -> "3"): the text denotes the scalar
     completeHyps .quantized_relu [] [("integer", .list [.int 3])] = false ∧
-    -- list-valued axes of quantized_bits: the tracked-list text is not a literal
-    completeHyps .quantized_bits [] [("alpha", .str "auto"), ("scale_axis", .list [.int 0, .int 1])] = false := by
+    -- list-valued axes of quantized_bits / quantized_linear print item by item (second fix round)
+    completeHyps .quantized_bits [] [("alpha", .str "auto"), ("scale_axis", .list [.int 0, .int 1]),
+      ("elements_per_scale", .list [.int 2, .int 2])] = true ∧
+    completeHyps .quantized_linear [] [("alpha", .str "auto"), ("scale_axis", .list [.int 0, .int 1])] = true := by
   decide +kernel
 
 /-- the complete-option-set hypotheses hold at the cross-default points and for falsy-but-legal
@@ -877,10 +1040,13 @@ example : Cond.anchored (.float 8) (.ne (.float 6)) = false ∧
     (Cond.ne (.float 6)).holds (.float 6) = false ∧ (PyVal.float 8).pyEq (.float 6) = false := by
   decide +kernel
 
-/-- `Kinded` does exclude something: `alpha=0` (falsy, neither None nor a usable scale) under
-    the `if self.alpha:` test of `quantized_bits` -/
-example : ¬ Kinded ⟨.quantized_bits, (params .quantized_bits).map fun p =>
-    if p.1 == "alpha" then (p.1, .int 0) else p⟩ := by decide +kernel
+/-- `Kinded` does exclude something: `None` where a flag is expected — `if self.x:` omits it, the
+    rebuilt quantizer has `False`, and `None != False`.  (It no longer excludes `alpha=0`: the
+    scale is tested with `is not None` since the second fix round.) -/
+example : (¬ Kinded ⟨.quantized_bits, (params .quantized_bits).map fun p =>
+      if p.1 == "use_stochastic_rounding" then (p.1, .none) else p⟩) ∧
+    Kinded ⟨.quantized_bits, (params .quantized_bits).map fun p =>
+      if p.1 == "alpha" then (p.1, .int 0) else p⟩ := by decide +kernel
 
 /-- `Typed` does exclude something: a fraction where a flag is expected (`str(int(0.5))` is "0") -/
 example : ¬ Typed ⟨.quantized_tanh, [("bits", .int 8), ("use_stochastic_rounding", .float (1 / 2)),
